@@ -251,12 +251,28 @@ def main():
         reqs = corpus + list(mod.gen(args.tier, rng))
     has_spec = getattr(mod, "has_spec", lambda r: False)
     canon = getattr(mod, "canon", lambda req, ans: ans)
+    impl_only = getattr(mod, "impl_only", lambda r: False)
     impl_req = getattr(mod, "impl_request", lambda r: r)
     model_req = getattr(mod, "model_request", lambda r: r)
 
     t1 = time.time()
     impl_ans = run_lines(impl, [impl_req(r) for r in reqs])
-    model_ans = run_lines(model_bin(), [model_req(r) for r in reqs])
+    midx = [i for i, r in enumerate(reqs) if not impl_only(r)]
+    m_out = run_lines(model_bin(), [model_req(reqs[i]) for i in midx])
+    model_ans = list(impl_ans)
+    for i, a in zip(midx, m_out):
+        model_ans[i] = a
+    phase2 = getattr(mod, "phase2", None)
+    if phase2 and not args.replay:
+        more = list(phase2(reqs, [canon(r, a) for r, a in zip(reqs, impl_ans)]))
+        if more:
+            i2 = run_lines(impl, [impl_req(r) for r in more])
+            mi2 = [i for i, r in enumerate(more) if not impl_only(r)]
+            mo2 = run_lines(model_bin(), [model_req(more[i]) for i in mi2])
+            m2 = list(i2)
+            for i, a in zip(mi2, mo2):
+                m2[i] = a
+            reqs += more; impl_ans += i2; model_ans += m2
     spec_idx = [i for i, r in enumerate(reqs) if has_spec(r)]
     spec_ans_l = run_lines(model_bin(), ["spec." + model_req(reqs[i]) for i in spec_idx])
     spec_ans = dict(zip(spec_idx, spec_ans_l))
@@ -273,8 +289,13 @@ def main():
         a_m = canon(r, model_ans[i])
         k = a_i.split(" ")[0] if a_i else ""
         if k == "err":
-            k = a_i
+            k = " ".join(a_i.split(" ")[:2])
+        if "=" in k:
+            k = k.split("=")[0] + "=…"
         hist[k] = hist.get(k, 0) + 1
+        if a_i.startswith(("PANIC", "CONTRACT", "HANG", "ABORT")) and not getattr(mod, "panic_expected", lambda r: False)(r):
+            spec_failures.append({"request": r, "impl": a_i, "model": a_m, "spec": "no panic / contract breach / hang / abort (C01, C07)"})
+            continue
         if a_i == "bad-op" or a_m == "bad-op" or a_i == "unsupported":
             bad.append((r, a_i, a_m))
             continue
@@ -294,7 +315,11 @@ def main():
     # ---------- 5. verdict
     def is_known(entry):
         for k in known.get("known", []):
-            if k.get("property") == prop and re.search(k["request_regex"], entry["request"]):
+            if prop not in k.get("properties", [k.get("property")]):
+                continue
+            if k.get("sig") and entry.get("sig") == k["sig"]:
+                return k
+            if k.get("request_regex") and re.search(k["request_regex"], entry["request"]):
                 return k
         return None
 
